@@ -128,6 +128,10 @@ def finish(ctx, level_explanation, trusted_base, files, replay_key=None):
 
         fdir = os.path.join(tempfile.gettempdir(), f"vsa-findings-{os.getpid()}")
     os.makedirs(fdir, exist_ok=True)
+    if official:
+        for fn_ in os.listdir(fdir):
+            if fn_.startswith(ctx.prop + "-"):
+                os.remove(os.path.join(fdir, fn_))
     lines = []
     for f, k in kf:
         lines.append(f"KNOWN-FINDING: property={f.prop} {f.rule} {f.construct} -- {k.get('what', f.why)}")
